@@ -200,3 +200,17 @@ TEXT["C20"]["level"] += (" At the level of single STORE OPERATIONS every method 
     "reads each of whose faults is an error (Props/C20Ops, 24 theorems + two seeded variants as counterexamples). The harness records each faulted call's trace of store operations; the "
     "write operations must be those of the model's program.")
 TEXT["C08"]["level"] += (" The filesystem store's ranged read is proved EQUAL to the map's (`fs_getPartial_exact`) since the repair that validates every byte range; extreme offsets (2^63, 2^64-1) are generated.")
+TEXT["C12"]["level"] += (" DEFLATE is no longer a hypothesis for stored blocks only: RFC 1951 is modelled as a WRITER specification (Model/DeflateSpec.lean: tokens, canonical Huffman codes from "
+    "code lengths, the code-length code with any run-length encoding, stored/fixed/dynamic blocks in any mix, gzip with all optional header fields, zlib) and the independent reader is PROVED to inflate "
+    "every stream that specification can write (Props/C12Deflate: inflate_stream, gunzip_stream, unzlib_stream; conformant_writer_ok discharges the DeflateOk hypothesis of the layout theorems for ANY "
+    "conformant writer). 2400 specification-written streams per run (random code trees, non-optimal codes, header slack, overlapping and far copies) are decoded by zarrs' own gzip/zlib codecs and partial decoders.")
+TEXT["C13"]["level"] += (" The metadata OPTIONS are modelled (Model/MetaOpts.lean: version conversion, `_zarrs` attribute, alias conversion with the alias tables as data, encode-only codecs, which keys are written or erased) "
+    "and proved: every accepted document under every one of the 16 option settings is accepted again and denotes the same array, store-open-store is a fixed point, names are as given with alias conversion off and default "
+    "names with it on, a V2 data type is kept (the unrepaired variant is a counterexample theorem) (Props/C13Opts, 28 theorems); ~2100 documents x option settings per run are stored through store_metadata_opt and the stored keys and texts compared with the prediction.")
+TEXT["C05"]["level"] += (" Kept partial encoders (several partial_encode calls and erase() on ONE handle, `c05 pesr`) must behave like a fresh encoder per call: binding for unsharded chains and chains whose outermost stage is the sharding codec "
+    "(the cached shard index is the state the property names; one defect repaired), a recorded known finding for chains with a stage in front of a sharding codec.")
+TEXT["C03"]["level"] += (" zfp: every mode on the ten data types it accepts, 1-4 dimensions: reversible mode exact, fixed-accuracy within the tolerance (exact rationals), declared size always (uint32/uint64 clamping: recorded known finding).")
+TEXT["C12"]["level"] += (" gzip FILES of several members are read by the specification-level reader (gunzipAll, proved on every file of specification-written members, Props/C12Gzip) and generated; conformant values of nested chains are also read through zarrs' partial decoders (c03 chainpd).")
+TEXT["C16"]["level"] += (" The concurrency split itself (concurrency_chunks_and_codec, calc_concurrency_outer_inner, RecommendedConcurrency::new) is modelled and proved to hand down the caller's options unchanged for every target and to stay within the recommendations (Props/C16Conc, 26 theorems); 3200 direct calls per run and end-to-end observables are compared with the model. Two free-running stress lines (chunk keys sharing a directory on a filesystem store) support the search.")
+TEXT["C18"]["level"] += (" One free-running stress line (first accesses to a key of a fresh FilesystemStore instance are concurrent) supports the search where no yield point exists.")
+TEXT["C20"]["level"] += (" Hierarchy listings (children, child_*, Node::open) are swept too: every fault is an error and a successful listing is complete.")
